@@ -58,9 +58,22 @@ def requirements(tier):
             "w_float32": 200}
 
 
+_BUFFERS: dict = {}
+
+
 def judge(J64, dname, a, ctx, case, klass):
     """One aggregator on one matrix."""
     Jt = to_t(J64, dname)
+    if isinstance(case, dict) and case.get("buffer"):
+        # the caller keeps one pre-allocated Jacobian buffer per shape and refills it in place before each call: the SAME tensor
+        # object with NEW content (a memo keyed by the tensor object would serve the previous Gramian)
+        key = (tuple(Jt.shape), dname)
+        if key in _BUFFERS:
+            _BUFFERS[key].copy_(Jt)
+            Jt = _BUFFERS[key]
+            ctx.count("w_matrix_buffer_refilled_in_place")
+        else:
+            _BUFFERS[key] = Jt
     J = as64(Jt)
     m, n = J.shape
     s = M.smax(J)
@@ -192,7 +205,7 @@ def gen_hostile(rng, i):
     if a["name"] == "MGDA" and rng.random() < 0.5:
         # MGDA has no scale parameter at all: its sub-optimality bound 8 s^2 / (iterations + 2) must hold at every magnitude
         J = J * 10.0 ** rng.uniform(-8, 8) / max(M.smax(J), 1e-300)
-    return {"J": J.tolist(), "dtype": dname, "agg": a, "class": klass}
+    return {"J": J.tolist(), "dtype": dname, "agg": a, "class": klass, "buffer": bool(rng.random() < 0.3)}
 
 
 def gen_small_rows(rng, i):
